@@ -13,6 +13,7 @@ use std::panic::{catch_unwind, AssertUnwindSafe};
 mod c01;
 mod c02;
 mod c07;
+mod c09;
 mod c13;
 
 pub fn unhex(s: &str) -> Vec<u8> {
@@ -42,12 +43,17 @@ fn run_case(line: &str) -> String {
     None.or_else(|| c01::dispatch(kind, &f))
         .or_else(|| c02::dispatch(kind, &f))
         .or_else(|| c07::dispatch(kind, &f))
+        .or_else(|| c09::dispatch(kind, &f))
         .or_else(|| c13::dispatch(kind, &f))
         .unwrap_or_else(|| format!("UNKNOWN-KIND {kind}"))
 }
 
 fn main() {
     let args: Vec<String> = std::env::args().collect();
+    if args.len() >= 2 && args[1] == "--c09-child" {
+        // hidden mode of the C09 check: see c09.rs
+        return c09::child_main(&args[2..]);
+    }
     if args.len() != 3 {
         eprintln!("usage: hcore <case-file> <out-file>");
         std::process::exit(2);
